@@ -227,7 +227,10 @@ class Shape:
 
 def leaves(ids, with_av):
     V = {i: B(f'V{i}') for i in ids}
-    av = {i: B(f'AV{i}', 1.0) for i in ids} if with_av else None
+    # the availability dictionary lists the alternatives in ANOTHER order than the utility dictionary for every second
+    # alternative set (a legitimate input: dictionaries are matched by key, never by position)
+    order = list(ids) if (sum(ids) + len(ids)) % 2 == 0 else list(reversed(ids))
+    av = {i: B(f'AV{i}', 1.0) for i in order} if with_av else None
     return V, av, B('CHOICE', ids[0])
 
 
@@ -351,6 +354,14 @@ def fam_nested(sid, ids, nests, with_av, rng, cfg, prop):
                 else:
                     s.build_errors.append(f'{nm}: no term for alternative {i}')
         if nests:          # legacy tuple syntax (the converter needs at least one tuple to recognise it)
+            # plain NUMBERS as nest parameters (the first one exactly 1.0, as in the bottom-normalised specification), both syntaxes
+            nums = [1.0 if m == 0 else 1.0 + 0.7 * m for m in range(len(nests))]
+            s.tree('P_mu#num', lambda: models.nested_mev_mu(
+                V, av, NestsForNestedLogit(list(ids), tuple(OneNestForNestedLogit(nums[m], list(n)) for m, n in enumerate(nests))), ch, MU))
+            s.tree('P_mu#num@tuple', lambda: models.nested_mev_mu(V, av, tuple((nums[m], list(n)) for m, n in enumerate(nests)), ch, MU))
+            s.tree('logP#num', lambda: models.lognested(
+                V, av, NestsForNestedLogit(list(ids), tuple(OneNestForNestedLogit(nums[m], list(n)) for m, n in enumerate(nests))), ch))
+            s.tree('logP#num@tuple', lambda: models.lognested(V, av, tuple((nums[m], list(n)) for m, n in enumerate(nests)), ch))
             s.tree('P@tuple', lambda: models.nested(V, av, tup(), ch))
             s.tree('logP@tuple', lambda: models.lognested(V, av, tup(), ch))
             s.tree('P_mu@tuple', lambda: models.nested_mev_mu(V, av, tup(), ch, MU))
